@@ -11,6 +11,7 @@ IsUbOut(out) == out \in {"ub:SIGILL", "ub:SIGFPE", "ub:SIGSEGV", "ub:SIGBUS", "u
 OutDiag(out) == IF IsUbOut(out) THEN "ub" ELSE IF out = "timeout" THEN "timeout"
                 ELSE IF out = "ok" THEN "ok" ELSE "unexpected_signal"
 
+NonNeg(x) == IF x > 0 THEN x ELSE 0
 RadixOK(lt, rt) == RadixOf(lt) = 0 \/ RadixOf(rt) = 0 \/ RadixOf(lt) = RadixOf(rt)
 CommonRadix(lt, rt) == IF RadixOf(lt) # 0 THEN RadixOf(lt) ELSE IF RadixOf(rt) # 0 THEN RadixOf(rt) ELSE 2
 ExpectedExp(op, el, er) == CASE op \in {"add", "sub"} -> MinI(el, er) [] op = "mul" -> el + er
@@ -140,7 +141,24 @@ JudgeScConv(e, i) ==
     LET st == i.lt  dt == i.rt  cls == ScCls(e, i, "") IN
     IF RoundingOf(st) # "native" \/ RoundingOf(dt) # "native" THEN [d |-> "skip", nt |-> FALSE, cls |-> cls]
     ELSE IF st.k # "float" /\ dt.k # "float" THEN
-        IF ~RadixOK(st, dt) THEN [d |-> "skip", nt |-> FALSE, cls |-> cls]
+        IF ~RadixOK(st, dt) THEN
+            \* different radices (binary <-> decimal): the value a * rs^es as a multiple of rd^ed, truncated toward zero.
+            \* The library multiplies first and divides afterwards, every step in the SOURCE representation: events whose
+            \* intermediate products leave that type are outside what the property's "destination can represent it" guards
+            \* (the same-radix case has its own finding for this) and are skipped.
+            LET a == J(e.l)  es == ExpOf(st)  ed == ExpOf(dt)  rs == RadixOf(st)  rd == RadixOf(dt)
+                m1 == Mul(a, PowSmall(rs, NonNeg(es)))
+                num == Mul(m1, PowSmall(rd, NonNeg(-ed)))
+                den == Mul(PowSmall(rs, NonNeg(-es)), PowSmall(rd, NonNeg(ed)))
+                x == TruncDiv(num, den)
+                srcT == AsIntT(InnerT(st))
+                fitsSrc == InT(m1, srcT) /\ InT(num, srcT)
+                inDest == Le(Mul(RawMin(dt), den), num) /\ Le(num, Mul(RawMax(dt), den))
+                cls3 == ScCls(e, i, "mixed_radix")
+            IN IF ~InRaw(a, st) THEN [d |-> "bad_event", nt |-> FALSE, cls |-> cls3]
+               ELSE IF ~inDest \/ ~fitsSrc THEN [d |-> "skip", nt |-> FALSE, cls |-> cls3]
+               ELSE [d |-> (IF e.out # "ok" THEN OutDiag(e.out) ELSE IF J(e.res) = x THEN "ok" ELSE "wrong_value"),
+                     nt |-> TRUE, cls |-> cls3]
         ELSE LET a == J(e.l)  es == ExpOf(st)  ed == ExpOf(dt)  rdx == CommonRadix(st, dt)
                  x == IF es >= ed THEN Mul(a, PowSmall(rdx, es - ed)) ELSE TruncDiv(a, PowSmall(rdx, ed - es))
                  \* the source value itself must lie within the destination's range (not just its truncation)
